@@ -3,8 +3,9 @@ Model driver for C03 (exe model_c03).  One op per line:
 
   lay <script>     builder script (same tokens as harness/c03.cpp `lay`)
                    → `<hex of HostileLayout.build> <ok|oob: Layout.decodeAll of it> <Guards 0|1>`
+                     or `err:length_error` (a builder's length check throws)
   xmlmon <hex>     XML document → tokenizer → builder-protocol monitor (Model/HostileXml.lean)
-                   → `fine` | `ub:<kind>` | `dbg:<kind>` | `tokerr` (outside the tokenizer's domain)
+                   → `fine` | `ub:<kind>` | `tokerr` (outside the tokenizer's domain)
 -/
 import Driver.Common
 import Osmium.Model.HostileLayout
@@ -116,6 +117,9 @@ def step (line : String) : String :=
     match parseScript ws with
     | none => "bad-op"
     | some o =>
+      -- what the builders CHECK: set_user / add_tag / add_member / add_comment throw std::length_error
+      -- beyond max_osm_string_length (set_user since repair bc6b907)
+      if o.user.length > maxStr || !(o.subs.all fun s => s.lengthsOk) then "err:length_error" else
       -- the bytes the builders never write are 0 in a fresh harness buffer? no: the harness prints what
       -- is there; `fill` is taken from the environment of the check (ASan malloc fill = 0xbe)
       let b := build 0xbe o
